@@ -151,11 +151,17 @@ func (p *zzMPool) NewStream(context.Context, types.StreamReceiveListener) (types
 
 type zzMCM struct {
 	types.ClusterManager
-	pool *zzMPool
-	host *zzMHost
+	pool     *zzMPool
+	host     *zzMHost
+	calls    int
+	mayEmpty bool // from the second call on, the cluster may have no host left
 }
 
 func (c *zzMCM) ConnPoolForCluster(types.LoadBalancerContext, types.ClusterSnapshot, api.ProtocolName) (types.ConnectionPool, types.Host) {
+	c.calls++
+	if c.mayEmpty && c.calls > 1 && verif.Choose("no_host_left", 2) == 1 {
+		return nil, nil
+	}
 	return c.pool, c.host
 }
 
@@ -228,12 +234,13 @@ type zzMRouters struct{ types.Routers }
 func (zzMRW) GetRouters() types.Routers { return zzMRouters{} }
 
 var zzTryTimeout time.Duration
+var zzMaxRetries uint32
 
 func zzMachine(numRetries uint32, retryOn bool) (*downStream, *zzMSender, *zzMPool, *proxy, context.Context) {
 	zzRegisterProtocol()
 	ctx := variable.NewVariableContext(context.Background())
 	ctx = buffer.NewBufferPoolContext(ctx)
-	info := zzNewInfo(0)
+	info := zzNewInfo(zzMaxRetries)
 	c := func() gometrics.Counter { return &zzCounter{} }
 	rr, ro := info.st.UpstreamRequestRetry, info.st.UpstreamRequestRetryOverflow
 	info.st = &types.ClusterStats{UpstreamConnectionTotal: c(), UpstreamConnectionClose: c(), UpstreamConnectionActive: c(), UpstreamConnectionConFail: c(),
@@ -301,12 +308,30 @@ var zzUpReasons = []types.StreamResetReason{types.StreamConnectionTermination, t
 // if the client disconnected -, the stream cleaned up, its gauge released and
 // no timer left armed; while it is still waiting, a timeout is armed.
 func VerifC03_EventMachine() {
+	zzEventMachine(false)
+}
+
+// VerifC10_ProxyRetrySlot: the same machine with max_retries = 1 and a
+// cluster that may run out of hosts when a retry is about to be sent: at the
+// end of the request the cluster's retries resource is back to zero and the
+// downstream gauge is released exactly once.
+func VerifC10_ProxyRetrySlot() {
+	zzEventMachine(true)
+}
+
+func zzEventMachine(accounting bool) {
 	verif.Switches(0) // the environment acts exactly when the worker is blocked or done
+	if accounting {
+		zzMaxRetries = 1
+	}
 	retryOn := verif.Choose("retry_on", 2) == 1
 	zzTryTimeout = time.Duration(verif.Choose("try_timeout", 2)) * time.Second
 	ds, sender, pool, p, ctx := zzMachine(uint32(verif.Choose("num_retries", 2)), retryOn)
-	zzTryTimeout = 0
+	zzTryTimeout, zzMaxRetries = 0, 0
 	pool.scripted = true
+	cm := p.clusterManager.(*zzMCM)
+	cm.mayEmpty = accounting
+	retries := cm.host.info.rm.Retries()
 	active0 := p.stats.DownstreamRequestActive.Count()
 	done := false
 	clientGone := false
@@ -317,6 +342,9 @@ func VerifC03_EventMachine() {
 	}()
 	verif.Settle()
 	events := verif.Param("events", 2, 3)
+	if accounting {
+		events = verif.Param("acc_events", 1, 2)
+	}
 	for i := 0; i < events && !done; i++ {
 		verif.Assert(sender.headers <= 1, "the client got two responses")
 		switch verif.Choose("event", 4) {
@@ -367,9 +395,11 @@ func VerifC03_EventMachine() {
 		if verif.Symbolic() {
 			verif.Assert(verif.NumTimers() == 0, "engine: a timer is still armed after the request ended")
 		}
+		if accounting {
+			verif.Assert(retries.Cur() == 0, "the cluster's retries resource is not back to zero after the request ended")
+		}
 		verif.Cover("finished")
 	} else {
-		verif.Cover("waiting")
 		if verif.Symbolic() {
 			// still waiting although every timeout has expired
 			if raced {
@@ -378,6 +408,154 @@ func VerifC03_EventMachine() {
 				verif.Assert(false, "engine: the upstream stays silent and every timeout has expired, but the request is still waiting (hangs)")
 			}
 		}
+	}
+	verif.Cover("end")
+}
+
+// ---- stream filters inside the proxy machine (C14)
+
+type zzFCall struct{ idx int }
+
+type zzPFilter struct {
+	idx     int
+	log     *[]int
+	verdict api.StreamFilterStatus // returned on the first invocation; later invocations continue
+	hijack  bool                   // send a local reply before returning stop
+	handler api.StreamReceiverFilterHandler
+	calls   int
+}
+
+func (f *zzPFilter) OnDestroy() {}
+func (f *zzPFilter) OnReceive(ctx context.Context, h api.HeaderMap, b api.IoBuffer, t api.HeaderMap) api.StreamFilterStatus {
+	*f.log = append(*f.log, f.idx)
+	f.calls++
+	if f.calls > 1 {
+		return api.StreamFilterContinue
+	}
+	if f.hijack {
+		f.handler.SendHijackReply(403, h)
+	}
+	return f.verdict
+}
+func (f *zzPFilter) SetReceiveFilterHandler(h api.StreamReceiverFilterHandler) { f.handler = h }
+
+type zzPSend struct {
+	calls int
+}
+
+func (f *zzPSend) OnDestroy() {}
+func (f *zzPSend) Append(ctx context.Context, h api.HeaderMap, b api.IoBuffer, t api.HeaderMap) api.StreamFilterStatus {
+	f.calls++
+	return api.StreamFilterContinue
+}
+func (f *zzPSend) SetSenderFilterHandler(api.StreamSenderFilterHandler) {}
+
+// VerifC14_ProxyFilters: scripted receive filters inside the real request
+// machine. One filter may deny (stop + local reply, or termination) or ask
+// once for re-match-route / re-choose-host; all others continue.
+//   - a denied request is never sent upstream; a local reply reaches the client
+//     exactly once and passes the send filter;
+//   - re-match / re-choose resume at the requesting filter: every filter before
+//     it runs once, the requester twice, nobody else more than once;
+//   - within a phase filters run in configured order.
+func VerifC14_ProxyFilters() {
+	verif.Switches(0)
+	nf := 1 + verif.Choose("filters", verif.Param("pfilters", 2, 3))
+	special := verif.Choose("special", nf) // which filter gets the non-continue verdict
+	kind := verif.Choose("kind", 5)        // 0 continue, 1 stop+hijack, 2 termination, 3 re-match, 4 re-choose
+	ds, sender, pool, _, ctx := zzMachine(0, false)
+	pool.scripted = true
+	var log []int
+	var phases []api.ReceiverFilterPhase
+	var filters []*zzPFilter
+	for i := 0; i < nf; i++ {
+		ph := api.ReceiverFilterPhase(verif.Choose("phase", 3))
+		f := &zzPFilter{idx: i, log: &log, verdict: api.StreamFilterContinue}
+		if i == special {
+			// the filter API allows re-match only after route matching and re-choose only after host choice
+			if kind == 3 {
+				ph = api.AfterRoute
+			}
+			if kind == 4 {
+				ph = api.AfterChooseHost
+			}
+			switch kind {
+			case 1:
+				f.verdict, f.hijack = api.StreamFilterStop, true
+			case 2:
+				f.verdict = api.StreamFiltertermination
+			case 3:
+				f.verdict = api.StreamFilterReMatchRoute
+			case 4:
+				f.verdict = api.StreamFilterReChooseHost
+			}
+		}
+		phases = append(phases, ph)
+		filters = append(filters, f)
+		ds.streamFilterChain.AddStreamReceiverFilter(f, ph)
+	}
+	sf := &zzPSend{}
+	ds.streamFilterChain.AddStreamSenderFilter(sf, api.BeforeSend)
+	done := false
+	go func() {
+		ds.OnReceive(ctx, protocol.CommonHeader{}, nil, nil)
+		done = true
+	}()
+	verif.Settle()
+	if !done {
+		if ur := ds.upstreamRequest; ur != nil && ur.requestSender != nil {
+			ur.OnReceive(ctx, protocol.CommonHeader{"status": "200"}, nil, nil)
+		}
+		verif.Settle()
+	}
+	verif.Assume(done) // pool failures etc. are C03's subject; here the upstream answers if asked
+	effective := kind
+	switch effective {
+	case 1:
+		verif.Assert(pool.calls == 0, "a request answered by a filter was still sent upstream")
+		verif.Assert(sender.headers == 1, "the filter's local reply must reach the client exactly once")
+		verif.Assert(sf.calls == 1, "the local reply must pass the send filters once")
+		verif.Cover("hijack")
+	case 2:
+		verif.Assert(pool.calls == 0, "a terminated request was still sent upstream")
+		verif.Assert(sender.headers == 0, "a terminated request must not get a reply")
+		verif.Cover("terminated")
+	default:
+		verif.Assert(sender.headers == 1 && sf.calls == 1, "exactly one response through the send filters")
+	}
+	// invocation counts and order
+	count := make([]int, nf)
+	for _, i := range log {
+		count[i]++
+	}
+	for i := 0; i < nf; i++ {
+		want := 1
+		if effective == 1 || effective == 2 {
+			// after a deny nothing later runs: later = later phase, or same phase and later index
+			if phases[i] > phases[special] || (phases[i] == phases[special] && i > special) {
+				want = 0
+			}
+		}
+		if (effective == 3 || effective == 4) && i == special {
+			want = 2
+		}
+		verif.Assert(count[i] == want, "a filter ran a wrong number of times (skipped, re-run, or run after a deny)")
+	}
+	// order: by phase, then index; the requester's second run directly follows its first
+	prevPhase, prevIdx := api.ReceiverFilterPhase(0), -1
+	for k, i := range log {
+		if k > 0 && i == log[k-1] {
+			continue // the requester resumed
+		}
+		ok := phases[i] > prevPhase || (phases[i] == prevPhase && i > prevIdx)
+		if k == 0 {
+			ok = true
+		}
+		verif.Assert(ok, "filters did not run in phase order and configured order")
+		prevPhase, prevIdx = phases[i], i
+	}
+	if effective == 3 || effective == 4 {
+		verif.Cover("resumed")
 	}
 	verif.Cover("end")
 }
